@@ -43,7 +43,3 @@ func replayFile(path string) int {
 	return 0
 }
 
-func selftest(args []string) int {
-	fmt.Println("selftest: see selftest.go")
-	return 0
-}
